@@ -174,6 +174,10 @@ func (g *Gen) shardOp() Op {
 	for i := 0; i < 1+g.R.Intn(3); i++ {
 		members = append(members, uint64(100*int(s)+i+1))
 	}
+	if g.R.Intn(3) == 0 {
+		// member lists are kept as submitted: not every client sends them in ascending order
+		g.R.Shuffle(len(members), func(i, j int) { members[i], members[j] = members[j], members[i] })
+	}
 	app := "app"
 	if g.R.Intn(3) == 0 {
 		app = "app" + strconv.Itoa(g.R.Intn(2))
